@@ -947,7 +947,7 @@ func (x *Exec) chk(kind string) bool {
 	if !x.safety {
 		return false
 	}
-	if sp != nil && sp.NoNil && (kind == "nil" || kind == "nilmap" || kind == "nilfunc") {
+	if sp != nil && sp.NoNil && (kind == "nil" || kind == "nilmap" || kind == "nilfunc" || kind == "nilfuncval") {
 		return false
 	}
 	return true
